@@ -182,6 +182,7 @@ const TABLES: &[&str] = &["Table1", "Tbl1", "Sales", "Q1", "FY21", "DeptSales", 
 const SPECS: &[&str] = &[
     "Q1", "FY21", "Col1", "A1", "$B$2", "#This Row", "[#This Row],[Q1]", "[#Totals],[Q1 2021]", "[A1]:[B2]", "It''s A1", "'[A1']", "'#A1",
     "[#Headers],[#Data],[C3]", "@A1", "@[FY21]", "", "Sales Amount", "é A1", "[[A1]]", "\"A1\"", "LOG10(A1)",
+    "a'[b", "Q']A1", "'[A1", "'[", "[a]A1", "[#Data],B2", "[x],$C$3:[y]",
 ];
 const OPS: &[char] = &['+', '-', '*', '/', '^', '&', '=', '<', '>'];
 
